@@ -427,5 +427,11 @@ def run(chk: Check) -> None:
 
     chk.rule("V5", "the request line is cut at the first terminator however the bytes were split into reads (chunk only appended, nothing read before the append, consistent limits)")
     segmentation_rules(chk, "V5", chk.proj.func(SERVER_PROTO + ".data_received"))
+    # V6: on the PyOpenSSL backend every decrypted record reaches the protocol (= C07.S4):
+    # a valid request sent as several TLS records must not be held back
+    from .c07 import rule_s4
+    from .common import reuse
+
+    reuse(chk, rule_s4, "V6", "PyOpenSSL pump: every decrypted record is handed to the protocol and the pump keeps reading until the engine has nothing left (= C07.S4)", ("S4",))
     chk.trusted = ["CPython ast parser", "engine CFG / inliner / abstract evaluator", "urllib.parse.urlparse field semantics (hostname, username, password, fragment, port)"]
     chk.assumptions = ["acceptance of every grammatical URL is not decided (only C19's bracket clause)"]
